@@ -35,14 +35,15 @@ Poly(g, x) == LET n == Len(g)
                   RECURSIVE S(_)
                   S(d) == IF d > n THEN R(0) ELSE RAdd(RMul(g[d], RPow(x, n - d + 1)), S(d + 1))
               IN S(1)
-Clip(e, sat) == IF sat = <<>> THEN R(e) ELSE IF e > sat[1] THEN R(sat[1]) ELSE R(e)
+\* the capacity is a number of electrons, not necessarily a whole one: a rational <<n, d>>
+Clip(e, sat) == IF sat = <<>> THEN R(e) ELSE IF RLt(sat[1], R(e)) THEN sat[1] ELSE R(e)
 GainAt(form, gain, i, j) == CASE form = "scalar" -> <<gain>>
                               [] form = "poly" -> gain
                               [] form = "pixel" -> <<gain[i][j]>>
                               [] form = "pixelpoly" -> [d \in 1..Len(gain) |-> gain[d][i][j]]
 DN(e, form, gain, sat, i, j) == LET v == RFloor(Poly(GainAt(form, gain, i, j), Clip(e[i][j], sat))) IN IF v < 0 THEN 0 ELSE v
 Adc(e, form, gain, sat) == Mat(Rows(e), Cols(e), LAMBDA i, j : DN(e, form, gain, sat, i, j))
-Saturates(e, sat) == sat # <<>> /\ \E i \in 1..Rows(e), j \in 1..Cols(e) : e[i][j] > sat[1]
+Saturates(e, sat) == sat # <<>> /\ \E i \in 1..Rows(e), j \in 1..Cols(e) : RLt(sat[1], R(e[i][j]))
 
 \* theorems on the specification, evaluated on the data of an event
 NonNegGain(form, gain, e) == \A i \in 1..Rows(e), j \in 1..Cols(e) : \A d \in 1..Len(GainAt(form, gain, i, j)) : GainAt(form, gain, i, j)[d][1] >= 0
